@@ -12,11 +12,11 @@ PROPS["C15"] = dict(
     level="proof",
     runner="C15",
     model_files=["Base.v", "Assets.v"],
-    proof_files=["Assets_proofs.v"],
+    proof_files=["Assets_proofs.v", "Assets_wf.v"],
     check_files=["C15_check.v"],
     theorems=["C15_add_comm", "C15_add_assoc", "C15_add_empty", "C15_sub_def", "C15_sub_add_cancel",
               "C15_inverse", "C15_neg_involutive", "C15_eq_semantic", "C15_congruence",
-              "C15_contains_order", "C15_exprs_roundtrip", "C15_struct_eq_refuted"],
+              "C15_contains_order", "C15_exprs_roundtrip", "C15_built_values_well_formed", "C15_exprs_roundtrip_built", "C15_struct_eq_refuted"],
     trusted_base=TB_COMMON + ["i128 overflow of +,-,neg is outside the model (amounts are Z); generated amounts stay below 2^122"],
     assumptions=["no i128 overflow in the generated values", "asset classes in the constructors' normal form for the expression round trip"],
     check_names={101: "a+b = b+a", 102: "(a+b)+c = a+(b+c)", 103: "a-b = a+(-b)", 104: "(a-b)+b = a",
@@ -228,14 +228,15 @@ PROPS["C08"] = dict(
                  121: "a multi-UTxO script input gets a single redeemer", 122: "two mint/burn blocks on one policy with different redeemers collapse to one"},
 )
 PROPS["C10"] = dict(
-    level="translation_validation", runner="C10", model_files=COMPILE_MODEL, proof_files=["Compile_proofs.v", "Compile_reds.v"], check_files=["Compile_check.v"],
-    theorems=["C10_hash_fields_presence", "C10_no_empty_multiasset", "C10_redeemers_strictly_sorted", "C10_redeemer_keys_distinct"],
+    level="translation_validation", runner="C10", model_files=COMPILE_MODEL, proof_files=["Compile_proofs.v", "Compile_reds.v", "Compile_sets.v"], check_files=["Compile_check.v"],
+    theorems=["C10_hash_fields_presence", "C10_no_empty_multiasset", "C10_redeemers_strictly_sorted", "C10_redeemer_keys_distinct", "C10_set_fields_distinct", "C10_distinct_keeps_order"],
     partial=["digests, decoder acceptance and byte identity are checked on every emitted payload (clauses 311-316), they are statements about pallas / blake2b",
              "cross-process byte identity (body input order of a multi-UTxO block is hash-set order) is not exercised by the quick tier"],
     trusted_base=COMPILE_TB + ["pallas' decoder and hasher recompute the digests the check compares with"],
     assumptions=[],
     keep_ids=_only(lambda i: i in (1, 2) or 300 <= i < 400),
-    check_names={301: "no empty multi-asset map", 302: "no empty set/map field", 303: "no duplicate inputs", 304: "network id",
+    classify=_cls({321: "input_named_twice"}),
+    check_names={301: "no empty multi-asset map", 302: "no empty set/map field", 321: "the template names one UTxO in two input positions (recorded finding F10-3: the inputs field lists it twice)", 303: "no duplicate inputs", 307: "no duplicate reference inputs, collateral inputs or required signers", 304: "network id",
                  305: "script data hash present iff redeemers", 306: "auxiliary data hash present iff metadata",
                  311: "payload decodes as a Conway transaction", 312: "reported hash = Blake2b-256 of the body bytes in the payload",
                  313: "auxiliary data hash = digest of the auxiliary data", 314: "compiling twice gives identical bytes", 316: "script data hash = digest of redeemers + language view"},
@@ -274,8 +275,8 @@ FRONT_TB = TB_COMMON + [
 FRONT_MODEL = ["Base.v", "Assets.v", "Select.v", "Tir.v", "Reduce.v", "Surface.v", "Lower.v", "Analyze.v"]
 
 PROPS["C13"] = dict(
-    level="proof", runner="C13", model_files=FRONT_MODEL, proof_files=["Lower_proofs.v"], check_files=["Front_check.v"],
-    theorems=["C13_accepted_programs_lower", "C13_accepted_expressions_lower", "C13_static_type_stable"],
+    level="proof", runner="C13", model_files=FRONT_MODEL, proof_files=["Lower_proofs.v", "Front_proofs.v", "Analyze_names.v"], check_files=["Front_check.v"],
+    theorems=["C13_accepted_programs_lower", "C13_accepted_expressions_lower", "C13_static_type_stable", "C13_case_lookup_unambiguous", "C13_case_indexes_distinct"],
     partial=["the theorem is about Analyze.v / Lower.v; that these are the code's analyzer and lowering is the per-case tie (clauses 1-3) on valid and mutated programs"],
     trusted_base=FRONT_TB, assumptions=["programs of the modelled core; asset definitions with literal policy and name"],
     keep_ids=_only(lambda i: i in (1, 2, 3) or 130 <= i < 150),
@@ -288,8 +289,8 @@ PROPS["C13"] = dict(
                  141: "a program with constructor-form policy definitions is accepted (or panics) and does not lower"},
 )
 PROPS["C17"] = dict(
-    level="proof", runner="C17", needs_tx3c=True, model_files=FRONT_MODEL, proof_files=["Front_proofs.v", "Lower_names.v"], check_files=["Front_check.v"],
-    theorems=["C17_required_keys_are_declared", "C17_argument_keys_do_not_collide", "C17_lowercase_idempotent", "C17_reported_params_sorted"],
+    level="proof", runner="C17", needs_tx3c=True, model_files=FRONT_MODEL, proof_files=["Front_proofs.v", "Lower_names.v", "Analyze_names.v"], check_files=["Front_check.v"],
+    theorems=["C17_required_keys_are_declared", "C17_argument_keys_do_not_collide", "C17_lowercase_idempotent", "C17_reported_params_sorted", "C17_lower_by_name_unambiguous"],
     partial=["the theorems are about Lower.v; that the TII file written by tx3c publishes exactly the lower-cased declared names and embeds the IR that lowering produced is checked per emitted file (clauses 171-174)"],
     trusted_base=FRONT_TB + ["the TII is read from the file written by the tx3c binary built from /repo's current tree"],
     assumptions=[],
